@@ -64,6 +64,9 @@ Monitor ==
     CASE IsUpdateRet /\ Ev.v = "Accept" ->
             Check("C01", "CosignedSetIsOneHistory", \A a \in accd[lastop[Ev.p].log] : OneHistory(a, Ev.val))
       [] Ev.e = "final" ->
+            \* C12: what a log holds is a checkpoint that was accepted FOR THAT LOG (a checkpoint of another log projects to nothing this log accepted)
+            /\ Check("C12", "NothingFiledUnderAnotherLog",
+                     \A l \in Logs : IF Ev.stored[l] = None THEN accd[l] = {} ELSE Ev.stored[l] \in accd[l])
             /\ Check("C03", "RefusedOverlappingCallLeavesNothing",
                      \A l \in Logs : IF Ev.stored[l] = None THEN accd[l] = {} ELSE Ev.stored[l] \in accd[l])
             \* what is held at the end is something that was handed out (or held at the start), and is the LARGEST of them
